@@ -7,13 +7,15 @@ EXTENDS SixelDecoder, TLC, Json
 CONSTANTS MaxToks, Export
 VARIABLES toks
 Alphabet == { <<63>>, <<126>>, <<64>>, <<45>>, <<36>>, <<33, 50>>, <<33, 51, 126>>, <<35, 49>>, <<35, 49, 59, 50, 59, 48, 59, 48, 59, 48>>,
-              <<34, 49, 59, 49, 59, 50, 59, 54>>, <<34, 49, 59, 49, 59, 49, 59, 49>>, <<34, 49, 59, 49, 59, 51, 59, 49, 51>>, <<34, 49, 59, 49, 59, 55>>, <<48>> }
+              <<34, 49, 59, 49, 59, 50, 59, 54>>, <<34, 49, 59, 49, 59, 49, 59, 49>>, <<34, 49, 59, 49, 59, 51, 59, 49, 51>>, <<34, 49, 59, 49, 59, 55>>, <<48>>,
+              <<33, 52, 48, 57, 54>>, <<33, 57, 57, 57, 57, 57, 57, 57>> }                 \* "!4096", "!9999999": the repeat applies to WHATEVER follows, '-' included
 Flat(ts) == FlattenSeq(ts)
 Init == toks = <<>>
 Next == Len(toks) < MaxToks /\ \E t \in Alphabet : toks' = Append(toks, t)
 Spec == Init /\ [][Next]_toks
 Res == Decode(Flat(toks))
-Bounded == Res.ok => (Res.w <= 4096 + Len(Flat(toks)) * 4096 /\ Res.h <= 4096 + 6 * (Len(Flat(toks)) + 1))
+\* C03 on the design: no payload, whatever its repeat counts, decodes to more than MaxDim x MaxDim pixels
+Bounded == Res.ok => (Res.w <= MaxDim /\ Res.h <= MaxDim)
 \* a payload that is exactly a raster header "1;1;2;6 followed by two full-height columns decodes to the declared 2 x 6
 DeclaredFits == toks = << <<34, 49, 59, 49, 59, 50, 59, 54>>, <<126>>, <<126>> >> => (Res.ok /\ Res.w = 2 /\ Res.h = 6)
 Emit == (Export /\ toks # <<>>) => PrintT(<<"WITNESS", ToJson([payload |-> Flat(toks)])>>)
